@@ -32,7 +32,7 @@ def key_pool(rng, ty, n):
         base = [0, 1, -1, 2, 3, 255, 256, -256, 65535, 65536, 2**31 - 2, -2**31 + 1, 7, 8, 9]
         return base + [rng.randrange(-10**6, 10**6) for _ in range(n)]
     if ty == "f":
-        base = [0.0, 1.0, -1.0, 1.5, 2.0, 0.5, -0.5, 1e-40, 16777216.0, -3.0e38, 3.0e38]
+        base = [0.0, -0.0, 1.0, -1.0, 1.5, 2.0, 0.5, -0.5, 1e-40, -1e-40, 16777216.0, -3.0e38, 3.0e38]   # (-0.0 and +0.0 are one key)
         return base + [struct.unpack("<f", struct.pack("<f", rng.uniform(-1000, 1000)))[0] for _ in range(n)]
     alpha = [b"a", b"b", b"ab", b"abc", b"abd", b"", b"z", b"B", b"aa", b"a" * 20]
     return alpha + [bytes(rng.choice(b"abcxyzABC019") for _ in range(rng.randrange(1, 20))) for _ in range(n)]
@@ -162,7 +162,7 @@ def run_seq(rng, res, kind, ty, nops):
                 want = sorted((kk, rr) for (kk, rr) in ref if (lo_t == "-" or kk >= lo) and (hi_t == "-" or kk <= hi))
                 got = a[3:].split(";") if a.startswith("ok:") and a[3:] else []
                 wantk = [keytok(ty, kk) if not (ty == "f" and kk == 0.0) else "f:0" for kk, _ in want]
-                gotk = [e.split("@")[0] for e in got]
+                gotk = [e.split("@")[0] if e.split("@")[0] != "f:2147483648" else "f:0" for e in got]     # -0.0 and +0.0 are one key (the unique skip list hands back the stored sign)
                 if not a.startswith("ok") or gotk != wantk or sorted(e.split("@")[1] for e in got) != sorted("%d.%d" % rr for _, rr in want):
                     fails.append(("scan [%s,%s]" % (lo_t, hi_t), "bounded scan returned %d entries %s..., expected %d in key order %s..." % (len(got), got[:4], len(want), wantk[:4])))
             else:
